@@ -538,3 +538,27 @@ package xy
 //@   ensures [one-point] len(coords) == strideOf(layout) ==> istype(res, ptr_geom.Point)
 //@   ensures [two-points] len(coords) == 2 * strideOf(layout) ==> (coords[0] == coords[strideOf(layout)] && coords[1] == coords[strideOf(layout)+1] ? istype(res, ptr_geom.Point) : istype(res, ptr_geom.LineString))
 //@   modifies nothing
+
+//@ func NewLineCentroidCalculator
+//@   floats real
+//@   requires strideOf(layout) >= 2
+//@   ensures fresh(res) && res.layout == layout && res.stride == strideOf(layout) && fresh(res.centSum) && len(res.centSum) == strideOf(layout) && res.totalLength == 0.0 && res.centSum[0] == 0.0 && res.centSum[1] == 0.0
+//@   modifies nothing
+
+// the centroid of a MultiLineString: the length-weighted midpoint sums over ALL its parts, each part taken from
+// the end of the previous one, divided by the total length
+//@ func MultiLineCentroid
+//@   floats real
+//@   requires line != nil && wf2(line) && line.stride >= 2
+//@   requires lsum2(cells(line.flatCoords), off(line.flatCoords), cells(line.ends), off(line.ends), line.stride, len(line.ends)) != 0.0
+//@   ensures len(res) == strideOf(line.layout)
+//@   ensures res[0] * lsum2(cells(line.flatCoords), off(line.flatCoords), cells(line.ends), off(line.ends), line.stride, len(line.ends)) == msum2(cells(line.flatCoords), off(line.flatCoords), cells(line.ends), off(line.ends), line.stride, 0, len(line.ends))
+//@   ensures res[1] * lsum2(cells(line.flatCoords), off(line.flatCoords), cells(line.ends), off(line.ends), line.stride, len(line.ends)) == msum2(cells(line.flatCoords), off(line.flatCoords), cells(line.ends), off(line.ends), line.stride, 1, len(line.ends))
+//@   modifies nothing
+//@   at loop1.end: assert msum2(cells(line.flatCoords), off(line.flatCoords), cells(line.ends), off(line.ends), line.stride, 0, idx) == msum2(cells(line.flatCoords), off(line.flatCoords), cells(line.ends), off(line.ends), line.stride, 0, idx - 1) + msum(cells(line.flatCoords), off(line.flatCoords) + (idx == 1 ? 0 : line.ends[idx-2]), line.stride, 0, cnt(line.ends[idx-1] - (idx == 1 ? 0 : line.ends[idx-2]), line.stride) - 1)
+//@   at loop1.end: assert msum2(cells(line.flatCoords), off(line.flatCoords), cells(line.ends), off(line.ends), line.stride, 1, idx) == msum2(cells(line.flatCoords), off(line.flatCoords), cells(line.ends), off(line.ends), line.stride, 1, idx - 1) + msum(cells(line.flatCoords), off(line.flatCoords) + (idx == 1 ? 0 : line.ends[idx-2]), line.stride, 1, cnt(line.ends[idx-1] - (idx == 1 ? 0 : line.ends[idx-2]), line.stride) - 1)
+//@   loop 1:
+//@     invariant cells(line.flatCoords) == old(cells(line.flatCoords)) && 0 <= start && start <= len(line.flatCoords)
+//@     invariant start == (idx == 0 ? 0 : line.ends[idx-1]) && fresh(calculator) && fresh(calculator.centSum) && len(calculator.centSum) >= 2 && calculator.stride == line.stride && calculator.layout == line.layout
+//@     invariant calculator.totalLength == lsum2(cells(line.flatCoords), off(line.flatCoords), cells(line.ends), off(line.ends), line.stride, idx)
+//@     invariant calculator.centSum[0] == msum2(cells(line.flatCoords), off(line.flatCoords), cells(line.ends), off(line.ends), line.stride, 0, idx) && calculator.centSum[1] == msum2(cells(line.flatCoords), off(line.flatCoords), cells(line.ends), off(line.ends), line.stride, 1, idx)
